@@ -366,6 +366,55 @@ fn precedence_case() -> i32 {
     rc
 }
 
+/// C17: keyword case-insensitivity through the real parser: every sample command must parse to the
+/// same command when its (all-uppercase) keywords are re-spelled in mixed case. exit 3 = a difference.
+fn kwcase_case() -> i32 {
+    use snel_db::command::parser::command::parse_command;
+    let samples = [
+        "QUERY e WHERE a = 1 AND b = 2 OR NOT c = 3 ORDER BY x DESC LIMIT 5 OFFSET 2",
+        "QUERY e WHERE a IN (1, 2) ORDER BY x ASC LIMIT 5",
+        "QUERY e COUNT UNIQUE u PER day USING t BY c",
+        "QUERY e FOR ctx SINCE \"2024-01-01T00:00:00Z\" USING t RETURN [a, b]",
+        "QUERY a FOLLOWED BY b LINKED BY k WHERE a.x = 1",
+        "REPLAY e FOR ctx SINCE \"2024-01-01T00:00:00Z\"",
+        "FLUSH",
+        "PING",
+    ];
+    fn respell(text: &str, style: usize) -> String {
+        text.split(' ')
+            .map(|w| {
+                if w.len() > 1 && w.chars().all(|c| c.is_ascii_uppercase()) {
+                    w.chars()
+                        .enumerate()
+                        .map(|(i, c)| if (i + style) % 2 == 0 { c.to_ascii_lowercase() } else { c })
+                        .collect::<String>()
+                } else {
+                    w.to_string()
+                }
+            })
+            .collect::<Vec<_>>()
+            .join(" ")
+    }
+    let mut diffs = Vec::new();
+    for s in samples {
+        let base = format!("{:?}", parse_command(s));
+        for style in 0..2 {
+            let v = respell(s, style);
+            let got = format!("{:?}", parse_command(&v));
+            if got != base {
+                diffs.push(format!("{v:?} parses differently from {s:?}"));
+            }
+        }
+    }
+    if diffs.is_empty() {
+        println!("all {} sample commands parse identically under mixed-case keywords", samples.len());
+        0
+    } else {
+        println!("{}", diffs.join("; "));
+        3
+    }
+}
+
 /// C19 native witness: real WalCleaner with the global configuration is not available here,
 /// so this case only exercises deletion with the cut-off (non-conservative default path).
 fn main() {
@@ -382,6 +431,7 @@ fn main() {
         Some("calendar2") if args.len() >= 5 => calendar2_case(args[2].parse().unwrap(), args[3].parse().unwrap(), args[4].parse().unwrap()),
         Some("epoch") if args.len() >= 4 => epoch_case(&args[2], &args[3]),
         Some("precedence") => precedence_case(),
+        Some("kwcase") => kwcase_case(),
         Some("stringcell") if args.len() >= 3 => stringcell(&args[2]),
         Some("surf") if args.len() >= 6 => surf_case(
             args[2].parse().unwrap(),
